@@ -493,7 +493,7 @@ Ltac split_checks H :=
 
 (* ---- the theorems read off the enumeration ---- *)
 
-(* every cell of the table, outside the five recorded defect classes *)
+(* every cell of the table, outside the four recorded defect classes *)
 Lemma table_partial k bs :
   In k all_kinds -> In bs (cases_of 2 k) -> defect k bs = false ->
   spec_allows bs (outcome k bs) = true.
